@@ -122,6 +122,9 @@ def do_run(names, all_checks=False, tier='quick', harvest=False):
     results = json.load(open(rp)) if os.path.exists(rp) else {}
     for n in names:
         meta = json.load(open(os.path.join(sd, n, 'meta.json')))
+        if meta.get('obsolete') or meta.get('confirmed') is False:
+            print('%-28s %-4s %-14s %s' % (n, meta['property'], 'obsolete', (meta.get('obsolete') or 'not confirmed')[:100]), flush=True)
+            continue
         d = scratch(os.path.join(sd, n, 'patch.diff'))
         try:
             res = {}
